@@ -25,11 +25,15 @@ type realSched struct {
 	mu    sync.Mutex
 	jobs  map[string]*shadow
 	seq   int
+	// claimed: one-off jobs that vouch itself has told the scheduler to run now and whose
+	// goroutine has not finished yet (they are no longer in the table but still alive).
+	claimed int
 }
 
 type shadow struct {
 	fakes.Job
-	done chan struct{} // closed when the execution started by Fire has finished
+	done    chan struct{} // closed when the execution started by Fire has finished
+	claimed bool
 }
 
 func newRealSched() (*realSched, error) {
@@ -59,6 +63,10 @@ func (s *realSched) ScheduleJob(ctx context.Context, class string, name string, 
 		if sh.done != nil {
 			close(sh.done)
 			sh.done = nil
+		}
+		if sh.claimed {
+			sh.claimed = false
+			s.claimed--
 		}
 		s.mu.Unlock()
 	}
@@ -129,9 +137,30 @@ func (s *realSched) CancelJobs(ctx context.Context, prefix string) {
 	s.mu.Unlock()
 }
 
-func (s *realSched) RunJob(ctx context.Context, name string) error { return s.inner.RunJob(ctx, name) }
+// RunJob is vouch telling the scheduler to run a job now.  The job leaves the table
+// at once (as in the real scheduler); its goroutine stays alive until the job is done.
+func (s *realSched) RunJob(ctx context.Context, name string) error {
+	s.mu.Lock()
+	sh := s.jobs[name]
+	if sh != nil && !sh.Periodic {
+		delete(s.jobs, name)
+		sh.claimed = true
+		s.claimed++
+	}
+	s.mu.Unlock()
+	err := s.inner.RunJob(ctx, name)
+	if err != nil && sh != nil && !sh.Periodic {
+		s.mu.Lock()
+		if sh.claimed {
+			sh.claimed = false
+			s.claimed--
+		}
+		s.mu.Unlock()
+	}
+	return err
+}
 
-func (s *realSched) RunJobIfExists(ctx context.Context, name string) { s.inner.RunJobIfExists(ctx, name) }
+func (s *realSched) RunJobIfExists(ctx context.Context, name string) { _ = s.RunJob(ctx, name) }
 
 func (s *realSched) JobExists(ctx context.Context, name string) bool { return s.inner.JobExists(ctx, name) }
 
@@ -183,5 +212,12 @@ func (s *realSched) Fire(name string) bool {
 	return true
 }
 
-// goroutines is the number of goroutines the real scheduler legitimately has: one per job.
-func (s *realSched) goroutines() int { return len(s.inner.ListJobs(context.Background())) }
+// goroutines is the number of goroutines the real scheduler legitimately has: one
+// per job.  Counted from the shadow table: asking the real scheduler would take its
+// deadlock-detecting mutex, which starts a short-lived helper goroutine of its own
+// and so disturbs the very count the caller is about to read.
+func (s *realSched) goroutines() int {
+	s.mu.Lock()
+	defer s.mu.Unlock()
+	return len(s.jobs) + s.claimed
+}
